@@ -384,20 +384,54 @@ func runE5(p *an.Prog, r *an.Result) {
 				continue
 			}
 			r.Counts["writer parameters"]++
+			// used: the writer (as it is, asserted, or converted) is the receiver or an argument of a
+			// call; a function that only stores it in a wrapper it returns writes nothing itself
 			used := false
-			if refs := par.Referrers(); refs != nil {
-				for _, u := range *refs {
-					if _, dbg := u.(*ssa.DebugRef); !dbg {
+			seen := map[ssa.Value]bool{}
+			var walk func(v ssa.Value, depth int)
+			walk = func(v ssa.Value, depth int) {
+				if seen[v] || depth > 5 || v.Referrers() == nil || used {
+					return
+				}
+				seen[v] = true
+				for _, u := range *v.Referrers() {
+					switch x := u.(type) {
+					case ssa.CallInstruction:
 						used = true
+					case *ssa.TypeAssert:
+						walk(x, depth+1)
+					case *ssa.Extract:
+						walk(x, depth+1)
+					case *ssa.Phi:
+						walk(x, depth+1)
+					case *ssa.MakeInterface:
+						walk(x, depth+1)
+					case *ssa.ChangeInterface:
+						walk(x, depth+1)
+					case *ssa.MakeClosure:
+						used = true // captured by a closure that may write
+					case *ssa.Store:
+						// a captured or spilled variable: follow its loads; a field of a fresh struct: not a use
+						if al, ok := x.Addr.(*ssa.Alloc); ok && x.Val == v && al.Referrers() != nil {
+							for _, l := range *al.Referrers() {
+								if ld, ok := l.(*ssa.UnOp); ok {
+									walk(ld, depth+1)
+								}
+								if _, ok := l.(*ssa.MakeClosure); ok {
+									used = true
+								}
+							}
+						}
 					}
 				}
 			}
+			walk(par, 0)
 			construct := "writer parameter " + par.Name()
 			switch {
 			case hasErr:
 				r.OK(name, construct, an.FuncPos(fn), "the function has an error result")
 			case !used:
-				r.Triv(name, construct, an.FuncPos(fn), "the writer is not used")
+				r.Triv(name, construct, an.FuncPos(fn), "the writer is not written to here (unused, or only stored in a wrapper that is returned)")
 			default:
 				r.Bad(name, construct, an.FuncPos(fn), fmt.Sprintf("%s is handed a writer and uses it but has no error result: a write failure can only be dropped or raised as a panic", name))
 			}
